@@ -368,6 +368,9 @@ func (c *bgpController) SetBalancer(l log.Logger, name string, lbIPs []net.IP, p
 		} else {
 			delete(c.svcAds, name)
 		}
+		// The sessions updated before the one that failed carry the new advertisements:
+		// bring them back to what is on record (best effort, the caller retries anyway).
+		_, _ = c.publishAds()
 		return err
 	}
 
@@ -489,6 +492,9 @@ func (c *bgpController) DeleteBalancer(l log.Logger, name, reason string) error 
 		// The peers were not told: keep the advertisements on record, so that the
 		// retry of this deletion withdraws them again instead of finding nothing to do.
 		c.svcAds[name] = ads
+		// The sessions updated before the one that failed no longer carry them: bring those
+		// back to what is on record (best effort, the caller retries anyway).
+		_, _ = c.publishAds()
 		return err
 	}
 	return nil
